@@ -207,13 +207,47 @@ fn observe(rule: &Rule, probes: &[MObj]) -> String {
 }
 
 fn part2(spec: &RuleSpec, depth: usize) -> Stats {
+    part2_docs(&spec.yaml(), gen::docs_for(spec, 1, 64), depth, 4)
+}
+
+/// numeric values whose renderings / conversions are easy to confuse (equal as f64, different as
+/// text or as integers), under str() casts and numeric comparisons
+fn value_history_cases() -> Vec<(String, Vec<MObj>)> {
+    use crate::mdoc::{arr, MVal};
+    let vals: Vec<MVal> = vec![
+        MVal::Float(0.0),
+        MVal::Float(-0.0),
+        MVal::Int(0),
+        MVal::Int(i64::MAX),
+        MVal::UInt(i64::MAX as u64 + 1),
+        MVal::UInt(u64::MAX),
+        MVal::UInt(u64::MAX - 1),
+        MVal::Float(9007199254740992.0),
+        MVal::Int(9007199254740993),
+        arr(vec![MVal::Float(0.0), MVal::Float(-0.0)]),
+        arr(vec![MVal::Float(-0.0), MVal::Float(0.0)]),
+        MVal::Float(1.5),
+    ];
+    let docs: Vec<MObj> = vals.iter().map(|v| MObj::new().with("f", v.clone()).with("g", MVal::Int(0))).collect();
+    let w = |body: &str, cond: &str| format!("detection:\n  A: {}\n  condition: {}\ntrue_positives: []\ntrue_negatives: []\n", body, cond);
+    vec![
+        (w("{str(f): '0'}", "A"), docs.clone()),
+        (w("{str(f): '-0'}", "A"), docs.clone()),
+        (w("{str(f): ['9223372036854775807', '18446744073709551615', '9007199254740993']}", "A"), docs.clone()),
+        (w("{str(f): ['*8', '-*']}", "not A"), docs.clone()),
+        (w("{g: 0}", "A and str(f) == str(g)"), docs.clone()),
+        (w("{f: ['>=9223372036854775807', '0']}", "A"), docs.clone()),
+        (w("{int(f): '<1'}", "A or flt(f) >= 9007199254740993"), docs),
+    ]
+}
+
+fn part2_docs(yaml: &str, all_docs: Vec<MObj>, depth: usize, alpha_cap: usize) -> Stats {
     let mut st = Stats::default();
-    let yaml = spec.yaml();
+    let yaml = yaml.to_string();
     let loaded = match eng::load(&yaml) {
         Ok(r) => r,
         Err(_) => return st,
     };
-    let all_docs = gen::docs_for(spec, 1, 64);
     if all_docs.len() < 2 {
         return st;
     }
@@ -232,7 +266,7 @@ fn part2(spec: &RuleSpec, depth: usize) -> Stats {
             }
         }
         for d in all_docs.iter().rev() {
-            if alpha.len() >= 4 {
+            if alpha.len() >= alpha_cap {
                 break;
             }
             if !alpha.contains(d) {
@@ -1074,6 +1108,12 @@ pub fn run(tier: Tier) -> i32 {
     for p in parts {
         rep.stats.merge(p);
     }
+    let vh = value_history_cases();
+    let parts: Vec<Stats> = vh.par_iter().map(|(y, d)| part2_docs(y, d.clone(), if th { 3 } else { 2 }, 12)).collect();
+    for p in parts {
+        rep.stats.merge(p);
+    }
+    rep.stats.count("part2_value_history_rules", vh.len() as u64);
     rep.stats.count("part2_rules", hist_specs.len() as u64);
     // part 2b: API-call histories on one rule value
     let api_specs: Vec<RuleSpec> = {
